@@ -269,7 +269,9 @@ func cmdCheck(args []string) int {
 			sem <- struct{}{}
 			defer func() { <-sem }()
 			to := timeout
-			if o.Canary && to > 6 {
+			if o.Canary && *tier == "thorough" {
+				to = 45 // reachability canaries get a real chance to be decided
+			} else if o.Canary && to > 6 {
 				to = 6
 			}
 			solveObligation(o, outDir, to, seed, *tier == "thorough" && !o.Canary)
